@@ -15,7 +15,7 @@ import ast
 from ..model import AnalysisError
 from ..terms import T, walk_terms
 from ..absint import AV, TOP, cav
-from ..walk import (data_derives, ret_alts, call_parts, call_arg, is_call_to, const_val, NOVAL, strip_views, unwrap_gamma, axis_uses, same_value, struct_eq)
+from ..walk import (data_derives, ret_alts, call_parts, call_arg, is_call_to, const_val, NOVAL, strip_views, unwrap_gamma, axis_uses, same_value, struct_eq, cond_polarity, loop_role, index_chain, is_full_slice)
 from ..lin import linearise, product_factors, peel
 
 S = 'pb_bss.evaluation.sxr_module::'
@@ -122,8 +122,9 @@ def check_self_exclusion(run, A):
         kind, elts, iters, conds = rows.args
         full = len(iters) == 1 and _range_over(iters[0], lambda x: _dim_of(x, 'images', 0))
         elt_is_n = len(elts) == 1 and strip_views(elts[0]).op == 'elem' and strip_views(elts[0]).args[0] is iters[0]
-        cond_ok = len(conds) == 1 and conds[0].op == 'cmp' and conds[0].args[0] == 'NotEq' and \
-            {id(strip_views(conds[0].args[1])), id(strip_views(conds[0].args[2]))} == {id(strip_views(elts[0])), id(k)}
+        cnd, cpol = cond_polarity(conds[0]) if len(conds) == 1 else (None, None)
+        cond_ok = cnd is not None and cnd.op == 'cmp' and (cnd.args[0], cpol) in (('NotEq', True), ('Eq', False)) and \
+            {id(strip_views(cnd.args[1])), id(strip_views(cnd.args[2]))} == {id(strip_views(elts[0])), id(k)}
         k_full = _range_over(k.args[0], lambda x: _dim_of(x, 'images', 0))
         ok = full and elt_is_n and cond_ok and k_full and const_val(call_arg(val, None, 'axis')) in (0, NOVAL)
     run.check(ok, 'SELF', 'input_sxr: interference of source k sums all sources n != k', fn.loc(), '', 'the interference power of source k does not exclude exactly the own source',
@@ -135,17 +136,22 @@ def check_self_exclusion(run, A):
     for e in g.events:
         if e.kind != 'store':
             continue
-        k = _loop_elem(e.term.args[1])
+        kr = loop_role(e.term.args[1])
         val = strip_views(e.term.args[2])
-        if k is None or not is_call_to(val, 'numpy.sum'):
+        if kr is None or kr[0] != 'index' or not is_call_to(val, 'numpy.sum'):
             continue
+        L = kr[1]
         dl = strip_views(call_arg(val, 0))
         if not is_call_to(dl, 'numpy.delete'):
             continue
-        col, idx = strip_views(call_arg(dl, 0)), strip_views(call_arg(dl, 1))
-        okc = col.op == 'sub' and _power_of(col.args[0], 'image_contribution') and col.args[1].op == 'tuple' and len(col.args[1].args[0]) == 2 \
-            and strip_views(col.args[1].args[0][0]).op == 'slice' and strip_views(col.args[1].args[0][1]).op == 'sub' and strip_views(strip_views(col.args[1].args[0][1]).args[1]) is k
-        ok = okc and idx is k and const_val(call_arg(dl, None, 'axis')) in (0, NOVAL)
+        base, items = index_chain(call_arg(dl, 0))
+        ir = loop_role(call_arg(dl, 1))
+        okc = _power_of(base, 'image_contribution') and len(items) == 2 and is_full_slice(items[0]) and isinstance(items[1], T)
+        if okc:
+            # the column is selection[k] of the same loop
+            sb, sit = index_chain(items[1])
+            okc = bool(sit) and sit[-1] == ('index', L) and len(sit) <= 2
+        ok = okc and ir is not None and ir[0] == 'index' and ir[1] is L and const_val(call_arg(dl, None, 'axis')) in (0, NOVAL)
     run.check(ok, 'SELF', 'output_sxr: interference at the selected output excludes the own source', fn.loc(), '',
               'II[k] is not the sum of S[:, selection[k]] with row k deleted', construct=f'SELF::{q}::exclusion')
 
@@ -170,24 +176,26 @@ def check_selection(run, A):
     for e in g.events:
         if e.kind != 'store':
             continue
-        pidx = _loop_elem(e.term.args[1])
+        pr = loop_role(e.term.args[1])
         val = strip_views(e.term.args[2])
-        if pidx is None or not is_call_to(val, 'numpy.sum', 'builtin.sum'):
+        if pr is None or pr[0] != 'index' or not is_call_to(val, 'numpy.sum', 'builtin.sum'):
             continue
+        Lp = pr[1]
         cp = strip_views(call_arg(val, 0))
         if cp.op != 'comp':
             continue
         kind, elts, iters, conds = cp.args
         if len(elts) != 1 or len(iters) != 1 or conds:
             continue
-        el = strip_views(elts[0])
-        if el.op != 'sub' or not _power_of(el.args[0], 'image_contribution') or el.args[1].op != 'tuple' or len(el.args[1].args[0]) != 2:
+        base, items = index_chain(elts[0])
+        if not _power_of(base, 'image_contribution') or len(items) != 2 or not isinstance(items[0], T) or not isinstance(items[1], T):
             continue
-        k, pick = (strip_views(x) for x in el.args[1].args[0])
+        k, pick = items
         okk = k.op == 'elem' and k.args[0] is iters[0] and _range_over(iters[0], lambda x: _dim_of(x, 'image_contribution', 0))
-        okp = pick.op == 'sub' and pick.args[1].op == 'tuple' and len(pick.args[1].args[0]) == 2 and strip_views(pick.args[1].args[0][0]) is pidx and strip_views(pick.args[1].args[0][1]) is k
+        pb, pit = index_chain(pick)
+        okp = len(pit) == 2 and pit[0] == ('index', Lp) and pit[1] is k
         if okk and okp:
-            sel_arr = strip_views(pick.args[0])
+            sel_arr = pb
             src_ok = perms and any(x is perms[0] for x in walk_terms(sel_arr))
             mp_ok = bool(src_ok)
     used_ok = False
